@@ -368,12 +368,17 @@ def classify_site(syn, cgfn, r, mir_refs_at_line):
                 if last_seg(rr["def"]) in ("collect", "try_collect", "from_iter", "unzip", "collect_vec"):
                     tgt = rr["full"]
             tf = terminal.get("tf", "")
-            if any(h in tgt.split("collect::")[-1] for h in HASHY) or any(h in tf for h in HASHY):
+            # (collect_vec / to_vec always build a Vec: their resolved generic arguments name the SOURCE iterator, which is the hash container itself)
+            if t not in ("collect_vec", "to_vec") and (any(h in tgt.split("collect::")[-1] for h in HASHY) or any(h in tf for h in HASHY)):
                 is_map = "Map" in tgt.split("collect::")[-1] or "Map" in tf
                 if method in ("values", "values_mut", "into_values") and is_map:
                     # the source keys are dropped and new keys are computed from the values: two values may
                     # compute the same key, and then which one survives follows the iteration order
                     return ("sensitive", t + "->rekeyed-map", recv, "values() re-keyed into a map: duplicate computed keys keep the last one in hash order")
+                if t == "try_collect" or any(x.get("k") == "try" for m_ in chain for a_ in m_.get("a", []) if a_.get("k") == "closure" for x in walk(a_.get("body", {}))):
+                    # the collected VALUE does not depend on the order, but the iteration stops at the first element that fails:
+                    # with two failing elements, which error is reported follows the hash order
+                    return ("sensitive", t + "->first-error", recv, "fallible per-element step over a hash container: the first error in hash order is the one returned")
                 return ("insensitive", t + "->hash/btree", recv, tgt[-80:])
             # collected into an ordered container: is it sorted right after?
             sorted_after = False
@@ -466,7 +471,8 @@ def r3(ctx, rep):
             if not derived:
                 if m not in ITER_SRC:
                     continue
-                if not ("std::collections::HashMap<" in recv or "std::collections::HashSet<" in recv):
+                # the receiver itself is the hash container (not a Vec / slice / tuple whose ELEMENTS are hash containers)
+                if not re.match(r"^(&(mut )?|\*)*std::collections::Hash(Map|Set)<", recv):
                     continue
             else:
                 if cg.owner_fn(fid)["path"] == r["def"]:
@@ -565,6 +571,131 @@ def r6(ctx, rep):
     C13.source_id_reader(ctx, rep)
 
 
+ORDERING = {"sort_by_key", "sorted_by_key", "sort_by", "sorted_by", "sort_unstable_by_key", "sort_unstable_by", "sort_by_cached_key", "sorted_by_cached_key", "min_by_key", "max_by_key",
+            "min_by", "max_by", "binary_search_by_key", "binary_search_by", "dedup_by_key", "group_by", "chunk_by", "into_group_map_by"}
+
+
+def r7(ctx, rep):
+    rep.rule("C11.R7", "the id of a source file (its position in the iterator given to SourceTree::new) is never an ordering or grouping key", floor=2)
+    syn = ctx.syn
+    n_keys = 0
+    for f in syn.fns:
+        if f["crate"] not in ("prqlc", "prqlc_parser") or "body" not in f or "/tests/" in f["file"] or "/cli/" in f["file"]:
+            continue
+        for n in walk(f["body"]):
+            if n.get("k") == "mcall" and n["m"] in ORDERING and n["a"]:
+                n_keys += 1
+                key = show(n["a"][-1], maxdepth=12)
+                rep.check("source_id" not in key, f"order-by-source-id:{f['path']}:{n['m']}", f"`.{n['m']}({key[:100]})` in {f['path']} orders by `source_id`: the id is the position of the file in the iterator "
+                          "the caller enumerated (a HashMap in the CLI), so the same project reports its errors / declarations in a different order from run to run", file=f["file"], line=n["l"], fn=f["path"])
+    rep.check(n_keys >= 10, "ordering-sites", f"expected >= 10 keyed sorts / groupings in the compiler crates, found {n_keys}")
+    # ... nor implicitly: a derived ordering on Span would compare source_id first
+    sp = syn.adt("Span", crate="prqlc_parser")
+    derives = " ".join(a["args"] for a in sp["attrs"] if a["name"] == "derive")
+    rep.check(not re.search(r"\b(PartialOrd|Ord)\b", derives), "span-not-ordered", f"Span derives {derives}: an ordering on spans compares source ids (enumeration positions)", file=sp["file"], line=sp["l"])
+
+
+def hash_bearing_adts(syn):
+    """names of the crate's ADTs whose Debug output contains a HashMap / HashSet (directly or through another such ADT)"""
+    adts = [a for a in syn.adts if a["crate"] in ("prqlc", "prqlc_parser") and a.get("kind") in ("struct", "enum")]
+
+    def field_types(a):
+        out = []
+        for fl in a.get("fields", []):
+            out.append(str(fl.get("ty", "")))
+        for v in a.get("variants", []):
+            for fl in v.get("fields", []):
+                out.append(str(fl.get("ty", "")))
+        return out
+    by_name = {}
+    for a in adts:
+        by_name.setdefault(a["name"], []).append(a)
+
+    def resolve(owner, name):
+        """the ADT a field type name denotes: the candidate sharing the longest module prefix with the owner (pl::Expr inside ir::pl, rq::Expr inside ir::rq)"""
+        cands = by_name.get(name, [])
+        if len(cands) <= 1:
+            return cands[0]["path"] if cands else None
+        op = owner["path"].split("::")
+
+        def common(c):
+            cp = c["path"].split("::")
+            n = 0
+            while n < min(len(op), len(cp)) and op[n] == cp[n]:
+                n += 1
+            return n
+        return max(cands, key=common)["path"]
+    def prints_raw(a):
+        """derived Debug prints every field as it is; a hand-written impl is accepted when it orders the hash container first"""
+        derives = " ".join(at["args"] for at in a.get("attrs", []) if at["name"] == "derive")
+        if re.search(r"\bDebug\b", derives):
+            return True
+        impls = [g for g in syn.fns if g["crate"] == a["crate"] and g.get("self_short") == a["name"] and g.get("trait_short") == "Debug" and g["name"] == "fmt" and "body" in g]
+        if not impls:
+            return False        # no Debug at all: cannot be printed with {:?}
+        return not any(re.search(r"BTreeSet|BTreeMap|sorted\(|sort\(|sorted_by", show(g["body"], maxdepth=20) + " " + " ".join(str(x.get("tf", "")) for x in walk(g["body"]))) for g in impls)
+    bearing = {a["path"] for a in adts if any(re.search(r"\bHash(Map|Set)\b", t) for t in field_types(a)) and prints_raw(a)}
+    changed = True
+    while changed:
+        changed = False
+        for a in adts:
+            if a["path"] in bearing:
+                continue
+            names = {w for t in field_types(a) for w in re.findall(r"\b[A-Z]\w*\b", t)}
+            if any(resolve(a, w) in bearing for w in names):
+                bearing.add(a["path"])
+                changed = True
+    # as resolved paths without the crate name (the form the driver prints type arguments in): `ir::pl::lineage::LineageColumn`
+    return {p_.split("::", 1)[-1] for p_ in bearing}
+
+
+DEBUG_PRINT_REVIEWED = {
+    "<ir::decl::DeclKind as std::fmt::Display>::fmt": "Display of a declaration is used by semantic::reporting (the labels of `prqlc debug annotate`) and by the Debug of Module (logs): "
+                                                      "neither is SQL, RQ or error text",
+}
+
+
+def r8(ctx, rep):
+    rep.rule("C11.R8", "no hash container is printed with {:?} into text the compiler returns (error messages)", floor=3)
+    syn, cg = ctx.syn, ctx.cg
+    bearing = hash_bearing_adts(syn)
+    rep.check(any(b.endswith("FuncCall") for b in bearing) and len(bearing) >= 10, "bearing-adts", f"expected pr::FuncCall (named_args: HashMap) and the types that embed it among the hash-bearing types, found {sorted(bearing)[:12]}")
+    n_dbg = n_log = 0
+    seen = set()
+    for fid, f in cg.fns.items():
+        if f["crate"] != "prqlc" or "/debug/" in f["file"] or "/cli/" in f["file"] or "/tests/" in f["file"]:
+            continue
+        for r in f["refs"]:
+            if r["kind"] != "call" or not (r.get("def") or "").endswith("new_debug"):
+                continue
+            ty = r.get("full", "").split("new_debug::<", 1)[-1]
+            hashy = bool(re.search(r"\bHash(Map|Set)\b", ty)) or any(re.search(r"(^|[^\w:])(\w+::)?" + re.escape(b) + r"\b", ty) for b in bearing)
+            if not hashy:
+                continue
+            n_dbg += 1
+            # which macro is the format string in? logging is not output
+            sf = syn.fn_at(r["file"], r["l"])
+            mac = None
+            if sf and "body" in sf:
+                cands = [n for n in walk(sf["body"]) if n.get("k") == "macro" and n["l"] <= r["l"] <= n.get("el", n["l"] + 12)]
+                cands = [n for n in cands if any(isinstance(v, str) and "{" in v for v in strs(n))] or cands
+                mac = max(cands, key=lambda n: n["l"])["n"] if cands else None
+            if mac and (mac.startswith("log::") or mac in ("debug", "trace", "info", "warn", "eprintln", "dbg", "panic", "unreachable", "assert", "assert_eq", "debug_assert")):
+                n_log += 1
+                continue
+            owner = cg.owner_fn(fid)["path"]
+            if owner in DEBUG_PRINT_REVIEWED:
+                rep.ok(f"debug-print:{owner}:reviewed", {"reviewed": DEBUG_PRINT_REVIEWED[owner]})
+                continue
+            key = f"debug-print:{owner}:{ty.rstrip('>')[-60:]}"
+            if key in seen:
+                continue
+            seen.add(key)
+            rep.bad(key, f"`{{:?}}` of `{ty.rstrip('>')[-90:]}` (macro `{mac}`) in {owner}: the value holds a HashMap / HashSet, whose Debug output lists the elements in the order of this "
+                    "process's hash seed; the text is part of what the compiler returns", file=r["file"], line=r["l"], fn=owner)
+    rep.check(n_dbg >= 5 and n_log >= 5, "sites", f"expected >= 5 debug-formatted hash-bearing values (most of them in log macros), found {n_dbg} ({n_log} in log / panic macros)")
+
+
 def run(ctx, rep):
-    for r in (r1_r2, r3, r4, r5, r6):
+    for r in (r1_r2, r3, r4, r5, r6, r7, r8):
         rep.guard(r, ctx)
